@@ -44,7 +44,8 @@ def parse_spec(path):
         elif kind == '@never_loop':
             secs['never_loop'] = text
         elif kind == '@to_string':
-            secs['to_string'] += [l.strip() for l in buf if l.strip()]
+            if text.strip():
+                secs['to_string'].append(text.strip('\n'))
         elif kind == '@proof':
             where, anchor = arg.split(None, 1)
             secs['proofs'].append((anchor, where, text))
@@ -267,6 +268,38 @@ class GroupBuild:
         self.parts.append(('trait', None, name, text))
         self.listing.append('### trait %s\n%s\n%s\n' % (name, '\n'.join('  - ' + l for l in log), X.listing('\n'.join(origs), text, name)))
 
+    @staticmethod
+    def expand_macros(text):
+        """sem_same(A, B): every uninterpreted semantic function of the context is unchanged between A and B"""
+        out = []
+        i = 0
+        while True:
+            j = text.find('sem_same(', i)
+            if j < 0:
+                out.append(text[i:])
+                break
+            out.append(text[i:j])
+            k = j + len('sem_same(')
+            depth = 1
+            args = ['']
+            while depth > 0:
+                c = text[k]
+                if c == '(':
+                    depth += 1
+                elif c == ')':
+                    depth -= 1
+                    if depth == 0:
+                        break
+                if c == ',' and depth == 1:
+                    args.append('')
+                else:
+                    args[-1] += c
+                k += 1
+            a, b = [x.strip() for x in args]
+            out.append("((forall|n: Seq<char>| (%s).rule_sem(n) == (%s).rule_sem(n)) && (forall|q: Seq<QueryPart<'loc>>| (%s).query_sem(q) == (%s).query_sem(q)))" % (b, a, b, a))
+            i = k + 1
+        return ''.join(out)
+
     def render(self):
         lines = []
         linemap = []  # (start_line, end_line, kind, unit, title)
@@ -274,7 +307,7 @@ class GroupBuild:
         lines.extend(head.split('\n')[:-1])
         for (kind, unit, title, text) in self.parts:
             start = len(lines) + 1
-            tl = text.rstrip('\n').split('\n')
+            tl = self.expand_macros(text).rstrip('\n').split('\n')
             lines.append('// ---- %s %s' % (kind, title))
             lines.extend(tl)
             linemap.append((start, len(lines), kind, unit, title))
